@@ -121,6 +121,11 @@ def compute_embedding_norm_sample(
 
     # Pair the input IDs with the row indices
     flattened_indices = input_ids.view(-1, 1)
+    if layer.padding_idx is not None:
+        # nn.Embedding never updates the padding row: it does not enter the norm
+        grad_values = grad_values.masked_fill(
+            flattened_indices == layer.padding_idx, 0
+        )
     paired_indices = torch.cat([row_indices, flattened_indices], dim=1).to(device)
 
     # Get unique paired indices and new index positions for aggregation
